@@ -11,7 +11,6 @@ import (
 	"fmt"
 	"regexp"
 	"strings"
-
 )
 
 func ruleStreamSeparators(rule string) func(p *Prog, r *Result) {
@@ -89,7 +88,9 @@ func ruleYamlScalars(rule string) func(p *Prog, r *Result) {
 	return func(p *Prog, r *Result) {
 		pr := newPSRule(p, r, rule, "bkl.yamlTranslateNode", PSOpts{})
 		nodeP := mParam("node")
-		text := func(t *T) bool { return t != nil && t.Op == "field" && t.Name == "Value" && len(t.Args) == 1 && nodeP(t.Args[0]) }
+		text := func(t *T) bool {
+			return t != nil && t.Op == "field" && t.Name == "Value" && len(t.Args) == 1 && nodeP(t.Args[0])
+		}
 		tagIs := func(pa *Path, tag string) bool {
 			for _, g := range pa.Guards {
 				if g.Kind == "streq" && !g.Neg && g.Const == q(tag) && g.A != nil && strings.Contains(g.A.String(), "ShortTag") {
